@@ -3,6 +3,7 @@ bounded-exhaustive grids and seeded random histories.  No mosromgr import.
 """
 import itertools
 import random
+from xml.etree import ElementTree as ET
 
 from . import build as B
 from .build import BLANK, ABSENT, E
@@ -85,6 +86,18 @@ def rich_blob(rng, depth, pool, tag=None):
 
 
 def xml_noise(rng, text, p=0.2):
+    """Safety net around _xml_noise: the noisy text must parse (a generator slip must never reach a check
+    as an ill-formed 'well-formed document'); otherwise the plain text is used."""
+    out = _xml_noise(rng, text, p)
+    if out is not text:
+        try:
+            ET.fromstring(out)
+        except ET.ParseError:
+            return text
+    return out
+
+
+def _xml_noise(rng, text, p=0.2):
     """With probability p, sprinkle constructs the XML parser absorbs - comments,
     processing instructions, CDATA sections, an XML declaration - over a document.
     The parsed content is unchanged (the oracle parses the same text)."""
@@ -118,7 +131,7 @@ def xml_noise(rng, text, p=0.2):
                      if rng.random() < 0.3 else m.group(0), out)
     if rng.random() < 0.25:
         # a DEFAULT namespace declared on a vendor element somewhere below the (un-namespaced) envelope
-        out = re.sub(r'<(mosAbstract|info|mosExtra|mosTrailer|meta|data|blk)(?=[ >/])',
+        out = re.sub(r'<(mosAbstract|info|mosExtra|mosTrailer|meta|data|blk)(?=[ >/])(?![^>]*\bxmlns=)',
                      lambda m: '<%s xmlns="urn:vendor:default"' % m.group(1) if rng.random() < 0.5 else m.group(0), out, count=3)
     r = rng.random()
     if not out.lstrip().startswith('<?xml') and '<!DOCTYPE' not in out:
@@ -547,7 +560,9 @@ def _rand_message(rng, state, kind, message_id, ids, pool=None, ro_id='RO', timi
                       message_id=message_id, pretty=pretty)
         attrs = rng.choice(['', '', ' rev="7"', ' rev="7" lang="en-GB"'])      # attributes on the message element itself
         txt = txt.replace('<roCreate', '<roReplace').replace('</roCreate>', '</roReplace>')
-        return txt.replace('<roReplace', '<roReplace' + attrs, 1)
+        # (the message element itself - the one that starts with its roID -, not a vendor element of that name)
+        import re
+        return re.sub(r'<roReplace>(\s*<roID>)', lambda m_: '<roReplace' + attrs + '>' + m_.group(1), txt, count=1)
     if kind == 'roMetadataReplace':
         used = set()
         carried = [E('roSlug', rng.choice(pool))]
